@@ -1,7 +1,7 @@
 """C01: erosion / dilation = lattice definition, path independent."""
 import itertools
 import numpy as np
-from vlib.harness import Result, enc_arr, DT_CODES, apply_layout, LAYOUTS
+from vlib.harness import Result, enc_arr, DT_CODES, apply_layout, LAYOUTS, ROW_VIEWS
 from vlib import gen
 
 ID = "C01"
@@ -87,7 +87,8 @@ def cases(ctx):
         bshape, bvals, regular, kind = se_for(rng, dtype, len(shape), shape)
         yield {"op": rng.choice(["erode", "dilate"]), "dtype": dtype, "shape": shape, "vals": vals,
                "bshape": bshape, "bvals": bvals, "regular": regular, "kind": kind,
-               "layout": rng.choice(LAYOUTS), "blayout": rng.choice(["C", "C", "F", "strided"])}
+               "layout": rng.choice(ROW_VIEWS if (dtype == "bool" and len(shape) == 2 and rng.random() < 0.5) else LAYOUTS),
+               "blayout": rng.choice(["C", "C", "F", "strided"])}
 
 
 def exhaustive_bool():
